@@ -13,6 +13,9 @@ import (
 // (holder, expiry on the bubble's clock, cluster ID, primary info). Every call
 // a node makes can be overridden by Script (used for deviation-bounded search).
 type LeaseService struct {
+	// ClusterIDSource, if set, is where the cluster ID really lives (the Consul key in Consul mode).
+	ClusterIDSource func() string
+
 	mu        sync.Mutex
 	TTL       time.Duration
 	holderID  string // lease ID that currently holds the key ("" = none)
@@ -75,7 +78,14 @@ func (s *LeaseService) Holder() (node, leaseID string) {
 }
 
 // ClusterIDValue returns the cluster ID stored in the service.
-func (s *LeaseService) ClusterIDValue() string { s.mu.Lock(); defer s.mu.Unlock(); return s.clusterID }
+func (s *LeaseService) ClusterIDValue() string {
+	if s.ClusterIDSource != nil {
+		return s.ClusterIDSource()
+	}
+	s.mu.Lock()
+	defer s.mu.Unlock()
+	return s.clusterID
+}
 
 // SetClusterIDValue forces the service-side cluster ID (lab setup).
 func (s *LeaseService) SetClusterIDValue(v string) { s.mu.Lock(); s.clusterID = v; s.mu.Unlock() }
@@ -96,11 +106,11 @@ func (s *LeaseService) Calls() []LeaseCall {
 
 // SimLeaser is one node's client of the LeaseService.
 type SimLeaser struct {
-	Svc      *LeaseService
-	Node     string
-	Host     string
-	URL      string
-	OnLease  func(l *SimLease) // called when a lease object is handed to the node
+	Svc     *LeaseService
+	Node    string
+	Host    string
+	URL     string
+	OnLease func(l *SimLease) // called when a lease object is handed to the node
 }
 
 var _ litefs.Leaser = (*SimLeaser)(nil)
@@ -109,7 +119,7 @@ func NewSimLeaser(svc *LeaseService, node string) *SimLeaser {
 	return &SimLeaser{Svc: svc, Node: node, Host: node, URL: "http://" + node}
 }
 
-func (l *SimLeaser) Close() error        { return nil }
+func (l *SimLeaser) Close() error         { return nil }
 func (l *SimLeaser) Type() string         { return "sim" }
 func (l *SimLeaser) Hostname() string     { return l.Host }
 func (l *SimLeaser) AdvertiseURL() string { return l.URL }
